@@ -43,6 +43,7 @@ CLASSES = ("Deb822", "Dsc")
 FORMS = ("s", "f", "b")                       # str, io.StringIO, io.BytesIO
 RBNAMES = ("sF", "sT", "fF", "fT", "bF", "bT")
 WS_FALSE = {"whitespace-separates-paragraphs": False}
+JAVA_OPTS = ["-Xss32m"]                     # the reader model recurses per line / per character of a line
 
 # field names that no class gives a special meaning on assignment
 KEY_POOL = ["Source", "Binary", "Maintainer", "Version", "Homepage", "Standards-Version", "Format",
@@ -293,6 +294,10 @@ def gen_value(rng):
             s += "\r"
         elif r < 0.16:
             s += " "
+    elif mode < 0.88:                                   # armor shaped continuation lines
+        s = gen_body(rng, rng.randint(0, 2)) + rng.choice(["\n ", "\n", "\r", "\r\n\t", "\n \r", "\r "]) \
+            + rng.choice(["-----BEGIN PGP SIGNATURE-----", "-----END PGP SIGNATURE-----", "-----BEGIN PGP SIGNED MESSAGE-----"]) \
+            + rng.choice(["", "\r", " ", "\n x"])
     else:                                               # injection shaped
         key = gen_body(rng, rng.randint(1, 4)).replace(":", "x").replace(" ", "x").replace("\t", "x")
         sep = rng.choice(["\n", "\r", "\r\n", "\n\r", "\n\n", "\n ", "\r ", "\n\t", " \r", "\n \r", "\n#", "\r\r\n ", "\n \n"])
@@ -316,10 +321,21 @@ def enc_para(items):
 
 
 def enc_rb(rb):
-    return {n: {"st": r["st"], "paras": [[cp(k) for k in p] for p in r["paras"]]} for n, r in rb.items()}
+    """table of the distinct observations + 1-based index per name (the six are usually equal)"""
+    table, ix = [], {}
+    for n in RBNAMES:
+        o = {"st": rb[n]["st"], "paras": [[cp(k) for k in p] for p in rb[n]["paras"]]}
+        if o not in table:
+            table.append(o)
+        ix[n] = table.index(o) + 1
+    return {"o": table, "ix": ix}
 
 
-NO_RB = {n: {"st": "none", "paras": []} for n in RBNAMES}
+def rb_get(rbj, n):
+    return rbj["o"][rbj["ix"][n] - 1]
+
+
+NO_RB = {"o": [], "ix": {n: 0 for n in RBNAMES}}
 
 
 def record_trace(rng, clsname, nev, script=None):
@@ -367,11 +383,10 @@ def _ev(pos, v, acc, items, rb=None, res=None):
 
 
 def _rb(keys, **over):
-    one = {"st": "ok", "paras": [[cp(k) for k in keys]]}
-    r = {n: one for n in RBNAMES}
+    r = {n: {"st": "ok", "paras": [keys]} for n in RBNAMES}
     for n, paras in over.items():
-        r[n] = {"st": "ok", "paras": [[cp(k) for k in p] for p in paras]}
-    return r
+        r[n] = {"st": "ok", "paras": paras}
+    return enc_rb(r)
 
 
 P3 = [["A", "x"], ["B", "x"], ["C", "x"]]
@@ -418,8 +433,11 @@ def corrupt(t):
     for i, e in enumerate(t["events"]):
         if e["acc"]:
             c = copy.deepcopy(slim(t))
-            r = c["events"][i]["rb"]["sF"]
+            rbj = c["events"][i]["rb"]
+            r = copy.deepcopy(rb_get(rbj, "sF"))
             r["paras"] = [p + [[120]] for p in r["paras"]] or [[[120]]]
+            rbj["o"].append(r)
+            rbj["ix"]["sF"] = len(rbj["o"])
             out.append(c)
             break
     for i, e in enumerate(t["events"]):
@@ -441,7 +459,7 @@ def validate(ctx, traces, with_controls=True):
         for t in traces[:3]:
             controls += corrupt(t)
     acc, _, r = core.validate_traces(ctx, "TraceDeb822Value", "TraceDeb822Value.cfg", batch,
-                                     extra_env={"TRACE_DIAG": "0"}, controls=controls, workers=min(8, core.NCPU))
+                                     extra_env={"TRACE_DIAG": "0"}, controls=controls, workers=min(8, core.NCPU), java_opts=JAVA_OPTS)
     if len(batch) not in acc:
         raise core.MachineryError("TraceDeb822Value rejects the literal good trace: trace module broken")
     model_diff = [(v[0], v[1]) for v in r.printed.get("REJECT", []) if isinstance(v, list) and v[0] <= len(traces)]
@@ -450,7 +468,7 @@ def validate(ctx, traces, with_controls=True):
     if rejected:
         sub = [slim(traces[i - 1]) for i in rejected[:20]]
         acc2, prog, r2 = core.validate_traces(ctx, "TraceDeb822Value", "TraceDeb822Value.cfg", sub,
-                                              extra_env={"TRACE_DIAG": "1"}, workers=1)
+                                              extra_env={"TRACE_DIAG": "1"}, workers=1, java_opts=JAVA_OPTS)
         why = {}
         for v in r2.printed.get("REJECT", []):
             if isinstance(v, list) and len(v) >= 3 and isinstance(v[2], list):
@@ -509,15 +527,34 @@ def run(ctx):
     phase = {}
     t_ph = time.time()
 
-    # 0./1. spec-level negative controls and the bounded configuration, side by side
-    with ThreadPoolExecutor(max_workers=2) as ex:
-        f_neg = ex.submit(spec_negative_controls, ctx)
-        f_bnd = ex.submit(ctx.tlc_must_hold, "Deb822Value",
-                          "MC_Deb822Value_quick.cfg" if quick else "MC_Deb822Value.cfg",
-                          workers=workers, want_tags={"CASE"})
-        f_neg.result()
-        r_bnd = f_bnd.result()
-    ctx.tlc_runs.sort(key=lambda x: (x["violated"] is not None, str(x["violated"]), x["generated"]))
+    # 1. (b) code -> spec: assignment histories are recorded first; TLC validates them on the
+    #    code points in the background while the bounded configuration runs and is replayed
+    ntr, nev = (500, 8) if quick else (16000, 12)
+    traces = [record_trace(rng, CLASSES[i % 2], nev) for i in range(ntr)]
+    phase["trace_record_s"] = round(time.time() - t_ph, 1)
+    t_ph = time.time()
+    chunk = 4000
+
+    def validate_all():
+        res = []
+        for off in range(0, len(traces), chunk):
+            res.append((off,) + validate(ctx, traces[off:off + chunk], with_controls=True))
+        return res
+    ex_val = ThreadPoolExecutor(max_workers=1)
+    f_val = ex_val.submit(validate_all)
+
+    # 2. spec-level negative controls and the bounded configuration, side by side
+    try:
+        with ThreadPoolExecutor(max_workers=2) as ex:
+            f_neg = ex.submit(spec_negative_controls, ctx)
+            f_bnd = ex.submit(ctx.tlc_must_hold, "Deb822Value",
+                              "MC_Deb822Value_quick.cfg" if quick else "MC_Deb822Value.cfg",
+                              workers=workers, want_tags={"CASE"})
+            f_neg.result()
+            r_bnd = f_bnd.result()
+    except BaseException:
+        ex_val.shutdown(wait=True)
+        raise
     cases = r_bnd.printed.get("CASE", [])
     if len(cases) != r_bnd.distinct or any(not isinstance(c, dict) for c in cases):
         raise core.MachineryError("bounded configuration: %d CASE lines for %d states" % (len(cases), r_bnd.distinct))
@@ -529,25 +566,8 @@ def run(ctx):
                           "classes": zones,
                           "zone_values_that_would_be_sound_if_accepted": (None if quick else sum(1 for c in cases if c["cls"] == "zone" and c["zs"])),
                           "positions": 3, "forms": ["str", "file(LF)"], "ws": [False, True]}
-
     phase["tlc_bounded+controls_s"] = round(time.time() - t_ph, 1)
     t_ph = time.time()
-
-    # 2. (b) code -> spec: assignment histories are recorded first, TLC validates them on the
-    #    code points while the CASE lines are replayed
-    ntr, nev = (640, 8) if quick else (16000, 12)
-    traces = [record_trace(rng, CLASSES[i % 2], nev) for i in range(ntr)]
-    phase["trace_record_s"] = round(time.time() - t_ph, 1)
-    t_ph = time.time()
-    chunk = 4000
-
-    def validate_all():
-        res = []
-        for off in range(0, len(traces), chunk):
-            res.append((off,) + validate(ctx, traces[off:off + chunk], with_controls=True))
-        return res
-    ex = ThreadPoolExecutor(max_workers=1)
-    f_val = ex.submit(validate_all)
 
     # 3. (a) every CASE line into the real classes
     stats = {}
@@ -559,7 +579,10 @@ def run(ctx):
             break
         v = c["v"]
         nontrivial = any(x in (10, 13) for x in v)
-        jobs = [("Deb822", pos, Conc(value=v), "setitem") for pos in (1, 2, 3)]
+        # canonical concretization: all three positions (quick: one rotating position for the
+        # values the statement wants rejected -- nothing is read back there)
+        canon_pos = (1, 2, 3) if (not quick or c["cls"] in ("accept", "blank")) else (1 + idx % 3,)
+        jobs = [("Deb822", pos, Conc(value=v), "setitem") for pos in canon_pos]
         # one rotating extra: other class / other concretization / update() route
         k = idx % 6
         extra_pos = 1 + (idx // 6) % 3
@@ -597,7 +620,7 @@ def run(ctx):
     try:
         results = f_val.result()
     finally:
-        ex.shutdown(wait=True)
+        ex_val.shutdown(wait=True)
     for off, rejected, info, model_diff in results:
         part = traces[off:off + chunk]
         for tid, l in model_diff[:5]:
@@ -624,6 +647,7 @@ def run(ctx):
     ctx.extra["trace_values"] = {"assigned": nvals, "accepted": nacc, "max_len": max(len(e["v"]) for t in traces for e in t["events"])}
     ctx.extra["traces_rejected"] = n_rej
     ctx.extra["model_vs_observation_differences"] = n_diff
+    ctx.tlc_runs.sort(key=lambda x: (x["module"], x["violated"] is not None, -x["generated"]))   # completion order varies
     phase["total_s"] = round(time.time() - ctx.t0, 1)
     ctx.extra["phase_wall"] = phase              # informational only, never part of a verdict
 
@@ -633,7 +657,7 @@ def _evshow(t, i):
     keys = [txt(f["k"]) for f in t["init"]]
     s = "%s := %s -> %s" % (keys[e["pos"] - 1], show(txt(e["v"])), e["res"])
     if e["acc"]:
-        s += " read back " + ",".join("%s=%s" % (n, _rbshow({"st": e["rb"][n]["st"], "paras": [[txt(k) for k in p] for p in e["rb"][n]["paras"]]})) for n in ("sF", "bT"))
+        s += " read back " + ",".join("%s=%s" % (n, _rbshow({"st": rb_get(e["rb"], n)["st"], "paras": [[txt(k) for k in p] for p in rb_get(e["rb"], n)["paras"]]})) for n in ("sF", "bT"))
     return s
 
 
